@@ -249,18 +249,26 @@ def Node.powerOff (nd : Node) : Node × Bool :=
   else if nd.power = .on then ({ nd with nic := false, power := .shuttingDown, downCd := nd.shutDur }, true)
   else (nd, false)
 
-def Node.applyTimestep (nd : Node) : Node :=
-  let nd1 : Node :=
-    if nd.upCd > 0 then { nd with upCd := nd.upCd - 1 }
-    else if nd.power = .booting then ({ nd with power := .on, nic := true } : Node).startUpActions
-    else nd
-  let nd2 : Node :=
-    if nd1.downCd > 0 then { nd1 with downCd := nd1.downCd - 1 }
-    else if nd1.power = .shuttingDown then
-      let o : Node := ({ nd1 with power := .off } : Node).shutDownActions
-      if o.resetting then ({ o with resetting := false } : Node).powerOn.1 else o
-    else nd1
-  if nd2.power = .on then { nd2 with term := nd2.term.tick, um := nd2.um.tick, usm := nd2.usm.tick } else nd2
+/-- count down to boot up -/
+def Node.bootPhase (nd : Node) : Node :=
+  if nd.upCd > 0 then { nd with upCd := nd.upCd - 1 }
+  else if nd.power = .booting then ({ nd with power := .on, nic := true } : Node).startUpActions
+  else nd
+
+/-- count down to shut down; a resetting node powers on again -/
+def Node.shutPhase (nd : Node) : Node :=
+  if nd.downCd > 0 then { nd with downCd := nd.downCd - 1 }
+  else if nd.power = .shuttingDown then
+    let o : Node := ({ nd with power := .off } : Node).shutDownActions
+    if o.resetting then ({ o with resetting := false } : Node).powerOn.1 else o
+  else nd
+
+/-- services advance only while the node is ON -/
+def Node.svcPhase (nd : Node) : Node :=
+  if nd.power = .on then { nd with term := nd.term.tick, um := nd.um.tick, usm := nd.usm.tick } else nd
+
+/-- `Node.apply_timestep`: the three phases in the order of the code -/
+def Node.applyTimestep (nd : Node) : Node := nd.bootPhase.shutPhase.svcPhase
 
 /-! ### the network path -/
 
@@ -368,99 +376,164 @@ def localLogin (n : Net) (y : Nat) (u p : String) : Net × Option Nat :=
 
 def boolOut (b : Bool) : Out := if b then .success else .failure
 
-/-- requests below `network/node/<y>/service/...` : node must exist (else `unreachable`) and be ON (validator) -/
-def withNodeOn (n : Net) (y : Nat) (k : Node → Net × Out) : Net × Out :=
+/-
+Requests below `network/node/<y>/service/...` (and `shutdown`, `reset`): the node must exist (else `unreachable`)
+and be ON (node-is-on validator, else `failure`).
+-/
+
+def opAddUser (n : Net) (y : Nat) (u p : String) (adm : Bool) : Net × Out :=
   match n.node y with
   | none => (n, .unreachable)
-  | some nd => if nd.isOn then k nd else (n, .failure)
+  | some nd =>
+    if !nd.isOn then (n, .failure)
+    else if nd.canUm && (nd.findUser u).isNone then
+      (n.upd y (fun nd => { nd with users := nd.users ++ [{ name := u, password := p, admin := adm }] }), .success)
+    else (n, .failure)
 
-def step (n : Net) : Op → Net × Out
-  | .addUser y u p adm => withNodeOn n y fun nd =>
-      if nd.canUm && (nd.findUser u).isNone then
-        (n.upd y (fun nd => { nd with users := nd.users ++ [{ name := u, password := p, admin := adm }] }), .success)
+def opDisableUser (n : Net) (y : Nat) (u : String) : Net × Out :=
+  match n.node y with
+  | none => (n, .unreachable)
+  | some nd =>
+    if !nd.isOn then (n, .failure)
+    else if !nd.canUm then (n, .failure) else
+    match nd.findUser u with
+    | none => (n, .failure)
+    | some w =>
+      if w.disabled then (n, .failure)
+      -- `_is_last_admin`: the user is an enabled admin and the only one
+      else if w.admin && (nd.users.filter (fun v => v.admin && !v.disabled)).length == 1 then (n, .failure)
+      else (n.upd y (fun nd => { nd with users := nd.users.map (fun v => if v.name == u then { v with disabled := true } else v) }),
+            .success)
+
+def opChangePassword (n : Net) (y : Nat) (u old new : String) : Net × Out :=
+  match n.node y with
+  | none => (n, .unreachable)
+  | some nd =>
+    if !nd.isOn then (n, .failure)
+    else if !nd.canUm then (n, .failure) else
+    match nd.findUser u with
+    | none => (n, .failure)
+    | some w =>
+      if w.password == old then
+        (logoutUser
+          (n.upd y (fun nd => { nd with users := nd.users.map (fun v => if v.name == u then { v with password := new } else v) }))
+          y u, .success)
       else (n, .failure)
-  | .disableUser y u => withNodeOn n y fun nd =>
-      if !nd.canUm then (n, .failure) else
-      match nd.findUser u with
-      | none => (n, .failure)
-      | some w =>
-        if w.disabled then (n, .failure)
-        -- `_is_last_admin`: the user is an enabled admin and the only one
-        else if w.admin && (nd.users.filter (fun v => v.admin && !v.disabled)).length == 1 then (n, .failure)
-        else (n.upd y (fun nd => { nd with users := nd.users.map (fun v => if v.name == u then { v with disabled := true } else v) }),
-              .success)
-  | .changePassword y u old new => withNodeOn n y fun nd =>
-      if !nd.canUm then (n, .failure) else
-      match nd.findUser u with
-      | none => (n, .failure)
-      | some w =>
-        if w.password == old then
-          let n1 := n.upd y (fun nd => { nd with users := nd.users.map (fun v => if v.name == u then { v with password := new } else v) })
-          (logoutUser n1 y u, .success)
-        else (n, .failure)
-  | .localLogin y u p =>
-      match n.node y with
-      | none => (n, .unreachable)
-      | some _ => let (n', r) := localLogin n y u p; (n', boolOut r.isSome)
-  | .localLogout y =>
-      match n.node y with
-      | none => (n, .unreachable)
-      | some nd => if nd.canUsm && nd.loc.isSome then (n.upd y Node.localLogout, .success) else (n, .failure)
-  | .localCmd y u p k => withNodeOn n y fun _ =>
-      -- `_process_local_login`, `_create_local_connection`, `LocalTerminalConnection.execute`; the handler answers
-      -- "success" whatever happened
-      match localLogin n y u p with
-      | (n1, some id) =>
-        let n2 := n1.upd y (Node.addConn ⟨id, none⟩)
-        (n2.upd y (fun nd => if nd.term.running then (nd.exec k).1 else nd), .success)
-      | (n1, none) => (n1, .success)
-  | .remoteLogin x y u p => withNodeOn n x fun _ =>
+
+def opLocalLogin (n : Net) (y : Nat) (u p : String) : Net × Out :=
+  match n.node y with
+  | none => (n, .unreachable)
+  | some _ => ((localLogin n y u p).1, boolOut (localLogin n y u p).2.isSome)
+
+def opLocalLogout (n : Net) (y : Nat) : Net × Out :=
+  match n.node y with
+  | none => (n, .unreachable)
+  | some nd => if nd.canUsm && nd.loc.isSome then (n.upd y Node.localLogout, .success) else (n, .failure)
+
+/-- `_process_local_login`, `_create_local_connection`, `LocalTerminalConnection.execute`; the handler answers
+"success" whatever happened -/
+def opLocalCmd (n : Net) (y : Nat) (u p : String) (k : Nat) : Net × Out :=
+  match n.node y with
+  | none => (n, .unreachable)
+  | some nd =>
+    if !nd.isOn then (n, .failure) else
+    match (localLogin n y u p).2 with
+    | some id =>
+      (((localLogin n y u p).1.upd y (Node.addConn ⟨id, none⟩)).upd y (fun nd => if nd.term.running then (nd.exec k).1 else nd),
+       .success)
+    | none => ((localLogin n y u p).1, .success)
+
+def opRemoteLogin (n : Net) (x y : Nat) (u p : String) : Net × Out :=
+  match n.node x with
+  | none => (n, .unreachable)
+  | some a =>
+    if !a.isOn then (n, .failure) else
+    if !canDeliver n x y then (n, .failure) else
+    match n.node y with
+    | none => (n, .failure)
+    | some b =>
+      -- Terminal.receive on y: SSH_MSG_USERAUTH_REQUEST -> remote_login -> _login(local=False)
+      if b.loginOk u p && decide (b.rem.length < b.maxRemote) then
+        let n1 : Net :=
+          { n.upd y (fun b => ({ b with rem := b.rem ++ [⟨n.nextId, u, n.time, x⟩] } : Node).addConn ⟨n.nextId, some x⟩) with
+            nextId := n.nextId + 1 }
+        -- SSH_MSG_USERAUTH_SUCCESS back to x (x's terminal must be RUNNING to see it)
+        if canDeliver n1 y x then (n1.upd x (Node.addConn ⟨n.nextId, some y⟩), .success) else (n1, .failure)
+      else (n, .failure)
+
+def opRemoteCmd (n : Net) (x y : Nat) (k : Nat) : Net × Out :=
+  match n.node x with
+  | none => (n, .unreachable)
+  | some a =>
+    if !a.isOn then (n, .failure) else
+    -- `_get_connection_from_ip`: first connection in dictionary order whose address is y's
+    match a.conns.find? (fun c => c.peer == some y) with
+    | none => (n, .failure)
+    | some c =>
+      -- RemoteTerminalConnection.execute / Terminal.send: the sender's terminal must be RUNNING
+      if !a.term.running then (n, .failure) else
       if !canDeliver n x y then (n, .failure) else
       match n.node y with
       | none => (n, .failure)
       | some b =>
-        -- Terminal.receive on y: SSH_MSG_USERAUTH_REQUEST -> remote_login -> _login(local=False)
-        if b.loginOk u p && decide (b.rem.length < b.maxRemote) then
-          let cid := n.nextId
-          let n1 : Net := { n.upd y (fun b => ({ b with rem := b.rem ++ [⟨cid, u, n.time, x⟩] } : Node).addConn ⟨cid, some x⟩) with
-                            nextId := n.nextId + 1 }
-          -- SSH_MSG_USERAUTH_SUCCESS back to x (x's terminal must be RUNNING to see it)
-          if canDeliver n1 y x then (n1.upd x (Node.addConn ⟨cid, some y⟩), .success) else (n1, .failure)
-        else (n, .failure)
-  | .remoteCmd x y k => withNodeOn n x fun a =>
-      -- `_get_connection_from_ip`: first connection in dictionary order whose address is y's
-      match a.conns.find? (fun c => c.peer == some y) with
-      | none => (n, .failure)
-      | some c =>
-        -- RemoteTerminalConnection.execute / Terminal.send: the sender's terminal must be RUNNING
-        if !a.term.running then (n, .failure) else
-        if !canDeliver n x y then (n, .failure) else
-        match n.node y with
-        | none => (n, .failure)
-        | some b =>
-          -- Terminal.receive on y: SSH_MSG_SERVICE_REQUEST -> _check_client_connection
-          if b.hasSession c.id then
-            if b.hasConn c.id then
-              let n1 := n.upd y (fun b => ((b.touch c.id n.time).exec k).1)
-              (n1, if canDeliver n1 y x then ((b.touch c.id n.time).exec k).2 else .failure)
-            else (n, .failure)
-          else (disconnect n.fuel n y c.id, .failure)
-  | .remoteLogoff x y => withNodeOn n x fun a =>
-      match a.conns.find? (fun c => c.peer == some y) with
-      | none => (n, .failure)
-      | some c => (disconnect n.fuel n x c.id, .success)
-  | .svc y w v => withNodeOn n y fun nd =>
-      let s := nd.getSvc w
-      if (match v.needs with | some q => s.st == q | none => true) then
-        let (s', ok) := s.apply v nd.restartDur
-        (n.upd y (fun nd => nd.setSvc w s'), boolOut ok)
-      else (n, .failure)
-  | .shutdown y => withNodeOn n y fun nd => (n.upd y (fun _ => nd.powerOff.1), boolOut nd.powerOff.2)
-  | .startup y =>
-      match n.node y with
-      | none => (n, .unreachable)
-      | some nd => if nd.power == .off then (n.upd y (fun _ => nd.powerOn.1), boolOut nd.powerOn.2) else (n, .failure)
-  | .reset y => withNodeOn n y fun nd => (n.upd y (fun _ => ({ nd with resetting := true } : Node).powerOff.1), .success)
+        -- Terminal.receive on y: SSH_MSG_SERVICE_REQUEST -> _check_client_connection
+        if b.hasSession c.id then
+          if b.hasConn c.id then
+            (n.upd y (fun b => ((b.touch c.id n.time).exec k).1),
+             if canDeliver (n.upd y (fun b => ((b.touch c.id n.time).exec k).1)) y x then ((b.touch c.id n.time).exec k).2
+             else .failure)
+          else (n, .failure)
+        else (disconnect n.fuel n y c.id, .failure)
+
+def opRemoteLogoff (n : Net) (x y : Nat) : Net × Out :=
+  match n.node x with
+  | none => (n, .unreachable)
+  | some a =>
+    if !a.isOn then (n, .failure) else
+    match a.conns.find? (fun c => c.peer == some y) with
+    | none => (n, .failure)
+    | some c => (disconnect n.fuel n x c.id, .success)
+
+def opSvc (n : Net) (y : Nat) (w : SvcName) (v : Verb) : Net × Out :=
+  match n.node y with
+  | none => (n, .unreachable)
+  | some nd =>
+    if !nd.isOn then (n, .failure) else
+    if (match v.needs with | some q => (nd.getSvc w).st == q | none => true) then
+      (n.upd y (fun nd => nd.setSvc w ((nd.getSvc w).apply v nd.restartDur).1), boolOut ((nd.getSvc w).apply v nd.restartDur).2)
+    else (n, .failure)
+
+def opShutdown (n : Net) (y : Nat) : Net × Out :=
+  match n.node y with
+  | none => (n, .unreachable)
+  | some nd => if !nd.isOn then (n, .failure) else (n.upd y (fun nd => nd.powerOff.1), boolOut nd.powerOff.2)
+
+/-- validator: node is OFF -/
+def opStartup (n : Net) (y : Nat) : Net × Out :=
+  match n.node y with
+  | none => (n, .unreachable)
+  | some nd => if nd.power == .off then (n.upd y (fun nd => nd.powerOn.1), boolOut nd.powerOn.2) else (n, .failure)
+
+def opReset (n : Net) (y : Nat) : Net × Out :=
+  match n.node y with
+  | none => (n, .unreachable)
+  | some nd =>
+    if !nd.isOn then (n, .failure) else (n.upd y (fun nd => ({ nd with resetting := true } : Node).powerOff.1), .success)
+
+def step (n : Net) : Op → Net × Out
+  | .addUser y u p adm => opAddUser n y u p adm
+  | .disableUser y u => opDisableUser n y u
+  | .changePassword y u old new => opChangePassword n y u old new
+  | .localLogin y u p => opLocalLogin n y u p
+  | .localLogout y => opLocalLogout n y
+  | .localCmd y u p k => opLocalCmd n y u p k
+  | .remoteLogin x y u p => opRemoteLogin n x y u p
+  | .remoteCmd x y k => opRemoteCmd n x y k
+  | .remoteLogoff x y => opRemoteLogoff n x y
+  | .svc y w v => opSvc n y w v
+  | .shutdown y => opShutdown n y
+  | .startup y => opStartup n y
+  | .reset y => opReset n y
   | .tick => (tick n, .success)
 
 def run (n : Net) : List Op → Net
